@@ -1,6 +1,7 @@
 """Per-property pipelines. Each check_<ID>(ctx) runs MC model(s), drivers and validators.
 All accept/reject decisions come from TLC (FAIL emits of Trace_* modules)."""
 import json
+import time
 import os
 import random
 
@@ -704,6 +705,9 @@ def check_C04(ctx):
 
 # ------------------------------------------------------------------------------- C01 C02 C03 (wire format family)
 
+HANG_S = 25
+
+
 def _drive_parse(ctx, scn_path, n_text, short):
     """Run the parse driver; when a decoder kills the process (abort), record that outcome for the pending input and restart
     the driver right after it. Returns a run dict with the merged trace."""
@@ -719,8 +723,33 @@ def _drive_parse(ctx, scn_path, n_text, short):
         args = [vlib.BIN, "parse", "--seed", str(ctx.seed), "--n", str(n_text), "--dump", dump, "--scn", scn_path, "--pending", pending, "--resume", resume]
         if short:
             args.append("--short")
-        with open(part, "wb") as fo:
-            p = subprocess.run(args, stdout=fo, stderr=subprocess.PIPE, env=dict(os.environ, RUST_BACKTRACE="0"))
+        # watchdog: a parser that does not return is not total either. The driver notes every input in the pending file before
+        # the call; when that file stays the same for HANG_S seconds the process is killed and the input recorded as "hang".
+        hung = False
+        with open(part, "wb") as fo, open(part + ".err", "wb") as fe:
+            pr = subprocess.Popen(args, stdout=fo, stderr=fe, env=dict(os.environ, RUST_BACKTRACE="0"))
+            last, since = None, time.time()
+            while True:
+                try:
+                    pr.wait(timeout=2)
+                    break
+                except subprocess.TimeoutExpired:
+                    try:
+                        cur = open(pending).read()
+                    except Exception:
+                        cur = None
+                    if cur != last:
+                        last, since = cur, time.time()
+                    elif time.time() - since > HANG_S:
+                        pr.kill()
+                        pr.wait()
+                        hung = True
+                        break
+
+        class _P:                      # what the code below reads from a finished process
+            returncode = -9 if hung else pr.returncode
+            stderr = (b"no progress for %d s (hang)" % HANG_S) if hung else open(part + ".err", "rb").read()
+        p = _P
         recs = []
         for line in open(part, errors="replace"):
             try:
@@ -734,6 +763,10 @@ def _drive_parse(ctx, scn_path, n_text, short):
             break
         if p.returncode in (-6, 134, -9, 137, -11, 139) and os.path.exists(pending):
             pend = json.load(open(pending))
+            if hung and getattr(ctx, "_last_hung", None) == (pend["sc"], pend["idx"]):
+                raise ToolError("parse driver hangs outside a noted call (after input sc=%s idx=%s)" % (pend["sc"], pend["idx"]))
+            if hung:
+                ctx._last_hung = (pend["sc"], pend["idx"])
             aborts += 1
             if aborts > 5000:
                 raise ToolError("parse driver: more than 5000 process deaths")
@@ -742,7 +775,7 @@ def _drive_parse(ctx, scn_path, n_text, short):
                     if r.get("ev") != "ParseBatch":
                         f.write(json.dumps(r, separators=(",", ":")) + "\n")
                 f.write(json.dumps({"ev": "Codec", "sc": pend["sc"], "type": pend["type"], "in": pend["in"], "mut": pend["mut"],
-                                    "r": {"abort": "process killed (rc %d): %s" % (p.returncode, p.stderr.decode(errors="replace")[:80].replace('"', ""))}}, separators=(",", ":")) + "\n")
+                                    "r": {"hang" if hung else "abort": "process killed (rc %d): %s" % (p.returncode, p.stderr.decode(errors="replace")[:80].replace('"', ""))}}, separators=(",", ":")) + "\n")
             resume = "%d:%d" % (pend["sc"], pend["idx"])
             continue
         raise ToolError("parse driver failed rc=%s: %s" % (p.returncode, p.stderr.decode(errors="replace")[-400:]))
